@@ -966,7 +966,8 @@ class Interp:
                         if np_ - nd <= nargs <= np_ or m.node.args.kwarg or m.node.args.vararg:
                             cands.append(m)
             rcls = self.class_of(recv)
-            if rcls is not None and rcls.find_method(name) is None and not rcls.ext_bases:
+            if rcls is not None and rcls.find_method(name) is None and not rcls.ext_bases \
+                    and name not in BUILTIN_METHODS:
                 self._emit("unresolved-member", st, e, act, recv=recv, cls=rcls.name, name=name)
                 self.unresolved.append((f"{act.fi.module.path}:{e.lineno}",
                                         f"{rcls.name} has no member {name}"))
